@@ -48,7 +48,7 @@ def hBsCmpUpto : List String → String → Res
 def hBwFromStr : List String → String → Res
   | [n, s], impl => do
     let n ← pNat n; let s ← pBytes s
-    if s.length > 64 then some (showNats (bwFromStr n s), "na") else
+    if s.length > 64 then some (showNats (bwFromStr n s), "big") else
     let spec := (List.range (8 * s.length / n)).map fun i => bwWordAt n s i
     some (showNats (bwFromStr n s), verdictEq (showNats spec) impl)
   | _, _ => none
@@ -81,7 +81,7 @@ def hBwGet : List String → String → Res
 def hBwFirstDiff : List String → String → Res
   | [n, a, b, frm, e], impl => do
     let n ← pNat n; let a ← pBytes a; let b ← pBytes b; let frm ← pNat frm; let e ← pInt e
-    if a.length > 64 then some (showOpt toString (bwFirstDiff n a b frm e), "na") else
+    if a.length > 64 then some (showOpt toString (bwFirstDiff n a b frm e), "big") else
     let wa := 8 * a.length / n; let wb := 8 * b.length / n
     let lim := min (min (if e = -1 then wa else e.toNat) wa) wb
     let spec := match (List.range' frm (lim - frm)).find? (fun i => bwWordAt n a i != bwWordAt n b i) with
@@ -115,7 +115,7 @@ def hCountPrefixes : List String → String → Res
   | [keys, s, e, m], impl => do
     let keys ← pBytesList keys; let s ← pNat s; let e ← pNat e; let m ← pNat m
     let model := showOpt showCnt (sbCountPrefixes keys s e m)
-    if e - s > 60 then some (model, "na") else    -- the naive distinct count is quadratic
+    if e - s > 60 then some (model, "big") else    -- the naive distinct count is quadratic
     let sub := (keys.drop s).take (e - s)
     let fds := List.zipWith fdSpec sub sub.tail
     let m0 := fds.foldl min (fds.headD 0)
